@@ -16,7 +16,7 @@ from . import mcmc
 from ..report import AnalysisError
 
 FLOORS = {"slice-form": 9, "no-squeeze": 9, "parallel-arrays": 1, "interval-cut": 1,
-          "none-value": 1, "marginal-passthrough": 2}
+          "none-value": 1, "marginal-passthrough": 1}
 GETTER_CLASSES = ("MetropolisChain", "HamiltonianChain", "EnsembleSampler")
 GETTERS = ("get_parameter", "get_probabilities", "get_sample")
 
